@@ -229,8 +229,17 @@ func (g *sboxGen) slices(svc string, s *boxStore) []*discovery.EndpointSlice {
 		sl := &discovery.EndpointSlice{ObjectMeta: metav1.ObjectMeta{Name: fmt.Sprintf("%s-%c", svc, 'a'+i), Namespace: "default", Labels: map[string]string{discovery.LabelServiceName: svc}}}
 		k := g.r.Intn(4)
 		for j := 0; j < k; j++ {
-			ep := discovery.Endpoint{Addresses: []string{fmt.Sprintf("172.17.0.%d", g.r.Range(1, 4))}}
-			if nn := vfPick(g.r, nodes); nn != "" {
+			// an endpoint address lives on one node (pod IPs are unique): the same address may repeat with
+			// conflicting conditions, but only on its own node, so that the Local policy stays unambiguous
+			nn := vfPick(g.r, nodes)
+			third := 0
+			if nn != "" {
+				third = int(nn[1] - '0')
+				ep0 := nn
+				_ = ep0
+			}
+			ep := discovery.Endpoint{Addresses: []string{fmt.Sprintf("172.17.%d.%d", third, g.r.Range(1, 3))}}
+			if nn != "" {
 				ep.NodeName = ptr.To(nn)
 			}
 			ep.Conditions.Ready = tri()
@@ -406,12 +415,13 @@ func (g *sboxGen) event() boxUserEvent {
 		return boxUserEvent{Kind: kind, Apply: func(s *boxStore) string {
 			name := vfPick(r, []string{"n1", "n1", "n2", "n3", "n4", "n5"})
 			desc := name
+			fresh := g.node(name) // drawn once: the edit below runs twice (scratch copy, then store)
 			ok := g.tryConfig(s, func(t *boxStore) {
 				cur := t.Nodes[name]
 				switch kind {
 				case "node-create":
 					if cur == nil {
-						t.Put(g.nodeStable(name, kind))
+						t.Put(fresh.DeepCopy())
 					}
 					return
 				case "node-delete":
